@@ -31,6 +31,11 @@ pub enum Op {
     IntoOwned,
     /// keep the current builder aside, continue on a clone
     CloneContinue,
+    /// add one raw attribute (fresh type, owned value) sized so that the attribute bytes come to
+    /// `body` (rounded down to a multiple of 4): brings the builder next to the 16-bit limit of the
+    /// length field, where the sealing operations that follow must still be accepted as long as
+    /// the sealed message fits. No-op when the builder is sealed or already larger.
+    FillTo { body: u16 },
 }
 
 #[derive(Debug, Clone, Serialize, Deserialize)]
@@ -245,6 +250,28 @@ fn test(c: &Case, st: &mut Stats) -> TestResult {
             p.extend_from_slice(&[T_MI, T_SHA256, T_FP, 0x8022, 0x0006, 0x4444]);
             p
         };
+        // an operation that would take the attribute bytes past what the 16-bit length field can
+        // express is outside the builder's domain (the statement's refusal rules say nothing about
+        // it): it is not performed
+        {
+            let cur = b.byte_len() - 20;
+            let add = match op {
+                Op::AddTyped { slot } => pool[*slot as usize % POOL_KINDS.len()].as_write().padded_len(),
+                Op::AddDupTyped { .. } => 800,
+                Op::AddRaw { .. } | Op::AddDupRaw { .. } => 4 + refstun::pad4(raw_values[i].len()),
+                Op::Sha1 => 24,
+                Op::Sha256 => 36,
+                Op::Fingerprint => 8,
+                _ => 0,
+            };
+            if cur + add > 65_535 {
+                st.class("operation skipped: the message would exceed the 16-bit length field");
+                continue;
+            }
+            if cur + add >= 65_516 && matches!(op, Op::Sha1 | Op::Sha256 | Op::Fingerprint) {
+                st.class("sealing operation that takes the attribute bytes to 65 516..=65 532");
+            }
+        }
         let before = snapshot(&b, &probes);
         // (expected to be refused?, result)
         let (expect_refused, result): (bool, Result<(), String>) = match op {
@@ -327,6 +354,24 @@ fn test(c: &Case, st: &mut Stats) -> TestResult {
             Op::IntoOwned => {
                 b = guard(|| b.into_owned()).map_err(|p| Fail::new("c11-panic", format!("{}: {}", step, p)))?;
                 (false, Ok(()))
+            }
+            Op::FillTo { body } => {
+                let cur = b.byte_len() - 20;
+                let target = (*body as usize) & !3;
+                let ty = 0xC2E0 + (i as u16 % 0x10);
+                if model.sealed() || target < cur + 4 || model.has(ty) {
+                    (false, Ok(()))
+                } else {
+                    // the value may end up to 3 bytes before the target (padding makes up the rest)
+                    let len = target - cur - 4 - (i % 4).min(target - cur - 4);
+                    let v = fill_bytes(len, i as u64 + 11, 0);
+                    let r = guard(|| b.add_raw_attribute(RawAttribute::new_owned(AttributeType::new(ty), v.clone().into_boxed_slice())))
+                        .map_err(|p| Fail::new("c11-panic", format!("{}: {}", step, p)))?;
+                    if r.is_ok() {
+                        model.attrs.push((ty, v));
+                    }
+                    (false, r.map_err(|e| format!("{:?}", e)))
+                }
             }
             Op::CloneContinue => {
                 let cl = b.clone();
@@ -478,6 +523,8 @@ fn op_strategy() -> BoxedStrategy<Op> {
         2 => Just(Op::Fingerprint),
         1 => Just(Op::IntoOwned),
         1 => Just(Op::CloneContinue),
+        1 => prop_oneof![36 => 0u16..=3_000, 2 => 65_380u16..=65_535, 1 => prop_oneof![Just(65_496u16), Just(65_508u16), Just(65_524u16), Just(65_532u16)], 1 => 0u16..=65_535]
+            .prop_map(|body| Op::FillTo { body }),
     ]
     .boxed()
 }
